@@ -7,7 +7,7 @@ TRUSTED = ['hand model coq/Text/Emit.v tied to impl Display for Scad by exact te
            "Rust's Display for f64/u64 prints plain decimal literals (checked on every sampled number)"]
 ASSUMPTIONS = ['numbers finite, strings without NUL (the property\'s own guard)']
 def run(ctx):
-    n = 500 if ctx['tier'] == 'quick' else 8000
+    n = (500 if ctx['tier'] == 'quick' else 8000) * ctx.get('boost', 1)
     return textprop.run_text('C01', n, ctx['seed'], c01=True, c02=False)
 def match_known(f, known): return vlib.match_known_default(f, known)
 def replay(path): print(json.dumps(json.load(open(path)), indent=1)); return 0
